@@ -557,7 +557,7 @@ def private(R):
 
 
 # -------------------------------------------------------------------------------------------- rsv1gate
-def rsv1gate(R):
+def rsv1gate(R, RID='C03.rsv1gate'):
     sites = R.types.callers.get(SENDC, [])
     seen = set()
     n_sites = 0
@@ -576,15 +576,28 @@ def rsv1gate(R):
                 lits = {(t_, p) for (t_, p, _) in gs}
                 cparam = ('compress', True) in lits and 'compress' in c.func.params
                 state = ('self.state.compression', True) in lits
-                R.ob('C03.rsv1gate', '%s: compressed send gated' % c.func.name, cparam and state,
+                R.ob(RID, '%s: compressed send gated' % c.func.name, cparam and state,
                      'send_compressed reachable without `compress and self.state.compression` (guards %s)' % sorted(lits),
                      func=c.func, node=call)
                 # the payload sent compressed is the output of compression.compress(<payload>)
                 o, on = rd.origin(n, call.args[1])
                 okc = isinstance(o, ast.Call) and R.types.resolves_to(o, g.ctx, 'compression.Deflate.compress')
-                R.ob('C03.rsv1gate', '%s: RSV1 payload is compress() output' % c.func.name, okc,
+                R.ob(RID, '%s: RSV1 payload is compress() output' % c.func.name, okc,
                      'send_compressed payload is %s' % U(o), func=c.func, node=call)
     need(n_sites >= 2, 'fewer than 2 send_compressed call sites')
+    # whatever went through the shared compressor must go out as a compressed frame on every path
+    for name in ('send_text', 'send_binary'):
+        q = WS + '.' + name
+        g = R.cfg(q)
+        comp = calls_to(R, g, 'compression.Deflate.compress')
+        sc = [n for (n, c) in calls_to(R, g, SENDC)]
+        plain = [n for (n, c) in calls_to(R, g, SEND)]
+        for (cn, cc) in comp:
+            ok = all_paths_pass(g, normal_succs(cn), sc, [g.exit], skip_edge=nx) and \
+                not any(p in g.succ_reach(cn, skip_edge=nx) for p in plain)
+            R.ob(RID, '%s: compressor output is always sent compressed' % name, ok,
+                 'after compress() has updated the shared deflate context a path sends the message uncompressed '
+                 '(or not at all): the peer\'s inflate context drifts', func=q, node=cc)
     # uncompressed arm sends the original payload with plain send: opcode parity between the two arms
     for name in ('send_text', 'send_binary'):
         q = WS + '.' + name
@@ -592,7 +605,7 @@ def rsv1gate(R):
         ops = set()
         for (n, call) in send_sites(R, g):
             ops.add(fold(R, call.args[0], g.ctx))
-        R.ob('C03.rsv1gate', '%s: both arms use one opcode' % name, len(ops) == 1 and
+        R.ob(RID, '%s: both arms use one opcode' % name, len(ops) == 1 and
              ops == {{'send_text': 1, 'send_binary': 2}[name]}, 'opcodes used: %s' % sorted(ops), func=q,
              node=R.func(q).node, construct=name + ' opcodes')
 
